@@ -56,7 +56,7 @@ notes.update({
 "C10-m6":"wave 3. Missed at first (nobody listened to pid lifecycle events in C10); added a pid lifecycle listener that must never hear about a spawn that was refused",
 "C13-m5":"wave 3. Missed at first (UpdateSettings never carried only a handler); added Op::SetHandler and the clause discard-to-stale-handler",
 "C13-m6":"wave 3. Missed at first (workers never stopped by themselves); added retiring workers (stop + slow post_stop) and a targeted generator; reported by silently-lost at about 1 scenario in 8000, hence 32000 scenarios per quick run",
-"C14-m5":"wave 3. NOT REPORTED: needs an idle-while-queued clause for sticky routing; the straightforward extension raises alarms on the unchanged tree (same-key jobs legitimately wait in the factory queue behind one busy worker) and was reverted (DESIGN sections 6 and 8)",
+"C14-m5":"wave 3. Missed at first (no idle-while-queued clause for sticky routing: the plain extension raises alarms on the unchanged tree, because same-key jobs legitimately wait behind one busy worker). A key-aware clause judged at quiet barriers (distinct free keys among the waiting jobs vs. workers that are active without a started job) and a sticky-growth generator were added late in the round; the clause first fired on the UNCHANGED tree - the same defect in a milder form (flush bounded by the pool size), recorded as F14 and fixed (fb1c469). patch_rebased.diff is the same change on top of that fix",
 "C14-m6":"wave 3. Missed at first (no worker was ever Stopping-but-not-yet-replaced while same-key jobs kept coming); retiring workers added; reported by key-order. patch_rebased.diff is the same change on top of the later fix 9f411cc, which touches the same hunk",
 "C15-m5":"wave 3. Missed at first (the worker-queue bound was switched off after any limit change); added the post-change bound for worker-queued routers and the targeted settings generator. The same extension exposed the genuine defect F13 (fixed, 9f411cc)",
 "C16-m6":"wave 3. Missed at first (the virtual-time engine let the dispatcher run between a burst and the next subscribe); in a third of the v2 bursts it no longer does, so a subscribe can land in the same dispatcher batch as the send that detects a dead subscriber",
